@@ -782,7 +782,16 @@ namespace occa {
           vendor_ = (1 << vendorBit);
         }
 
-        io::write(outFilename, std::to_string(vendor_));
+        // Stage the result like every other cached file so that a process killed
+        // mid-write can never leave a truncated [output] behind for later processes
+        io::stageFile(
+          outFilename,
+          false,
+          [&](const std::string &tempFilename) -> bool {
+            io::write(tempFilename, std::to_string(vendor_));
+            return true;
+          }
+        );
 
         return vendor_;
       }
